@@ -94,6 +94,10 @@ def cases(ctx):
                 # signal): the complete result must still be written into out
                 yield {"fn": name, "variant": v, "shape": shape, "seed": rng.randrange(1 << 30),
                        "content": rng.choice(["random", "random", "zeros", "const", "interior"])}
+        # subm documents the in-place form ("Pass a as output to subtract in-place"): out aliases the first argument
+        for dt in ("uint8", "uint16", "int8", "int32", "uint64"):
+            yield {"fn": "subm", "variant": "inplace", "shape": [rng.choice([1, 3, 5]) for _ in range(rng.choice([1, 2]))],
+                   "seed": rng.randrange(1 << 30), "content": "random", "dtype": dt}
         # hitmiss documents its out as "Boolean ndarray of same size as input", whatever the (integer) type of the input
         shape = [rng.choice([3, 4, 5, 6]) for _ in range(2)]
         yield {"fn": "hitmiss", "variant": "boolout", "shape": shape, "seed": rng.randrange(1 << 30), "content": "random"}
@@ -134,6 +138,22 @@ def run_case(ctx, case):
     oshape = ref.shape
     if v in ("valid", "output_kw"):
         buf = np.full(oshape, sentinel, dtype=odt)
+    elif v == "inplace":
+        dt = np.dtype(case["dtype"])
+        info = np.iinfo(dt)
+        r2 = random.Random(case["seed"] + 1)
+        pool = [info.min, info.max, 0, 1, info.max - 1] + [r2.randint(max(info.min, -50), min(info.max, 300)) for _ in range(6)]
+        x = np.array([r2.choice(pool) for _ in range(int(np.prod(oshape)))], dtype=dt).reshape(oshape)
+        y = np.array([r2.choice(pool) for _ in range(int(np.prod(oshape)))], dtype=dt).reshape(oshape)
+        want = np.clip(x.astype(object) - y.astype(object), info.min, info.max)
+        ykeep = y.copy()
+        r = sp["fn"](x, y, out=x)
+        if r is not x:
+            return Result(False, True, {"why": "subm(a, b, out=a) did not return a"})
+        if not np.array_equal(x.astype(object), want) or not np.array_equal(y, ykeep):
+            return Result(False, True, {"why": "subm(a, b, out=a) (the documented in-place form) != clamped a - b", "dtype": str(dt),
+                                        "got": [int(v) for v in x.reshape(-1)], "want": [int(v) for v in want.reshape(-1)]})
+        return Result(True, True, None, "subm/inplace/%s" % dt)
     elif v == "boolout":
         buf = np.full(oshape, True, dtype=bool)
         r = sp["fn"](*[x.copy() if isinstance(x, np.ndarray) else x for x in args], out=buf, **kw)
